@@ -5,19 +5,23 @@ package color15
 // Contracts for the snesvc verifier (/verif). Comment-only; compiled only with -tags verif.
 
 //@ func (Color).ToRGB
+//@   params c
 //@   property C17
 //@   ensures r == uint8(c & 31) && g == uint8((c >> 5) & 31) && b == uint8((c >> 10) & 31)
 
 //@ func ToColor15
+//@   params r g b
 //@   property C17
 //@   ensures c == Color(uint16(r&31) | uint16(g&31)<<5 | uint16(b&31)<<10)
 
 //@ func (Color).MulDiv
+//@   params c multiplicand divisor
 //@   property C17
 //@   requires divisor != 0
 //@   ensures uint16(m) == colorspec.MulDiv(uint16(c), multiplicand, divisor)
 //@   ensures m & 0x8000 == 0
 
 //@ func (Color).Luminosity
+//@   params c
 //@   property C17
 //@   ensures l == colorspec.Mean(uint16(c))
